@@ -104,6 +104,15 @@ int main(int argc, char** argv) {
 		vf::Json r = vf::Json::load(args.replay); std::string d;
 		if (r.at("kind").s == "single") { auto in = vf::unhex(r.at("input").s); d = single((int)r.at("vm").num(), (int)r.at("v2").num(), std::string((const char*)in.data(), in.size()), (unsigned)r.at("mxcsr").num()); }
 		else d = piped((int)r.at("vm").num(), (int)r.at("v2").num(), (unsigned)r.at("c1").num(), (unsigned)r.at("c2").num(), (unsigned)r.at("c3").num());
+		if (d.empty() && r.has("k")) {   // not visible in isolation: re-run this shard's cases in the original order on the same VM objects (history-dependent defect)
+			int shard = (int)r.at("shard").num(); size_t want = (size_t)r.at("k").num(), k = 0; const int nv = (int)w.vms.size(), nsh = 64; bool single_kind = r.at("kind").s == "single";
+			for (size_t si = 0; si < states.size() && d.empty(); ++si) for (int vi = 0; vi < nv && d.empty(); ++vi) for (int v2 = 0; v2 < 2 && d.empty(); ++v2) for (size_t ii = 0; ii < inputs.size() && d.empty(); ++ii, ++k) {
+				if ((int)(k % nsh) != shard) continue; if (single_kind && k > want) break;
+				d = single(vi, v2, inputs[ii], states[si]); if (!(single_kind && k == want)) d.clear();
+			}
+			if (!single_kind) { k = 0; for (unsigned c1 : tri) for (unsigned c2 : tri) for (unsigned c3 : tri) for (int vi = 0; vi < nv; ++vi) for (int v2 = 0; v2 < 2; ++v2, ++k) { if ((int)(k % nsh) != shard || k > want || !d.empty()) continue; d = piped(vi, v2, c1, c2, c3); if (k != want) d.clear(); } }
+			if (!d.empty()) d += " [only after the preceding calls on the same VM: history-dependent]";
+		}
 		printf("replay: %s\n", d.empty() ? "holds" : d.c_str()); return d.empty() ? 0 : 1;
 	}
 	const int nv = (int)w.vms.size();
@@ -113,7 +122,7 @@ int main(int argc, char** argv) {
 		for (size_t si = 0; si < states.size(); ++si) for (int vi = 0; vi < nv; ++vi) for (int v2 = 0; v2 < 2; ++v2) for (size_t ii = 0; ii < inputs.size(); ++ii, ++k) {
 			if ((int)(k % nsh) != shard) continue;
 			if ((k & 1023) == 0 && args.expired()) { R.incomplete = true; return R; }
-			vf::Json rp = vf::Json::obj().set("kind", "single").set("vm", vi).set("cfg", w.names[vi]).set("v2", v2).set("input", vf::hex(inputs[ii].data(), inputs[ii].size())).set("mxcsr", (int)states[si]);
+			vf::Json rp = vf::Json::obj().set("kind", "single").set("vm", vi).set("cfg", w.names[vi]).set("v2", v2).set("input", vf::hex(inputs[ii].data(), inputs[ii].size())).set("mxcsr", (int)states[si]).set("shard", shard).set("k", (unsigned long long)k);
 			vf::set_current(rp.dump());
 			std::string d = single(vi, v2, inputs[ii], states[si]); R.n["single_calls"]++;
 			if (k % 50021 == 0) R.sample(rp, 2);
@@ -122,7 +131,7 @@ int main(int argc, char** argv) {
 		k = 0;
 		for (unsigned c1 : tri) for (unsigned c2 : tri) for (unsigned c3 : tri) for (int vi = 0; vi < nv; ++vi) for (int v2 = 0; v2 < 2; ++v2, ++k) {
 			if ((int)(k % nsh) != shard) continue;
-			vf::Json rp = vf::Json::obj().set("kind", "piped").set("vm", vi).set("cfg", w.names[vi]).set("v2", v2).set("c1", (int)c1).set("c2", (int)c2).set("c3", (int)c3);
+			vf::Json rp = vf::Json::obj().set("kind", "piped").set("vm", vi).set("cfg", w.names[vi]).set("v2", v2).set("c1", (int)c1).set("c2", (int)c2).set("c3", (int)c3).set("shard", shard).set("k", (unsigned long long)k);
 			vf::set_current(rp.dump());
 			std::string d = piped(vi, v2, c1, c2, c3); R.n["pipelined_batches"]++;
 			if (!d.empty() && R.viol.size() < 3) { vf::Violation v; v.key = "c13:pipelined"; v.what = w.names[vi] + (v2 ? " v2: " : " v1: ") + d; v.replay = rp; R.viol.push_back(v); }
